@@ -646,15 +646,26 @@ def local_rate_case(ctx, RP, r, cid, nmax):
     n = int(r.integers(2, 25))
     x = r.integers(-32, 33, (n, int(r.integers(1, 3)))) / 8.0
     rr = float(r.choice([0.1, 0.25, 0.5, r.random()]))
-    obj = api_object(ctx, RP, x, cid, [], False, False,
+    # a third of the asymmetric matrices also have missing samples (lines
+    # touching them are excluded)
+    miss = None
+    tags = []
+    if n >= 4 and r.random() < 0.5:
+        m = r.random(n) < 0.25
+        if m.any() and not m.all():
+            x = x.copy()
+            x[m, 0] = np.nan
+            miss = m
+            tags = ["missing"]
+            ctx.count("api_asymmetric_with_missing")
+    obj = api_object(ctx, RP, x, cid, tags, False, miss is not None,
                      local_recurrence_rate=rr)
     if obj is None:
         return
     R = np.asarray(obj.recurrence_matrix())
     ctx.count("api_asymmetric_objects")
-    api_judge(ctx, obj, R, None, cid, [], {"x": x,
-                                           "local_recurrence_rate": rr}, r,
-              all_mins=False)
+    api_judge(ctx, obj, R, miss, cid, tags,
+              {"x": x, "local_recurrence_rate": rr}, r, all_mins=False)
 
 
 def long_lines_case(ctx, RP, r, cid, thorough):
@@ -689,6 +700,28 @@ def history_case(ctx, RP, r, cid, nmax):
     its histograms are the run-length counts of that matrix."""
     n = int(r.integers(2, 25))
     x = r.integers(-32, 33, (n, int(r.integers(1, 3)))) / 8.0
+    if r.random() < 0.3:
+        # sequential mode: there is no matrix, the histograms follow the
+        # object's threshold; change it after the histograms were queried
+        t1, t2 = [float(v) for v in r.choice([0.4, 1.0, 1.7, 2.5], 2,
+                                             replace=False)]
+        obj = api_object(ctx, RP, x, cid, ["history", "sparse"], True, False,
+                         threshold=t1)
+        if obj is None:
+            return
+        with warnings.catch_warnings():
+            warnings.simplefilter("ignore")
+            for q in ("diagline_dist", "vertline_dist", "recurrence_rate",
+                      "determinism", "laminarity"):
+                ctx.call(getattr(obj, q))
+        obj.threshold = t2
+        E = ref.as2d(ref.f32(x))
+        R2 = ref.threshold_matrix(ref.distance_matrix(E, E, "supremum"), t2)
+        ctx.count("api_history_sequential")
+        api_judge(ctx, obj, R2, None, cid, ["history", "sparse"],
+                  {"x": x, "threshold": t1, "then threshold =": t2}, r,
+                  all_mins=False)
+        return
     ctor = [{"threshold": float(r.choice([0.4, 1.0, 2.5]))},
             {"recurrence_rate": float(r.choice([0.1, 0.3, 0.6]))},
             {"local_recurrence_rate": float(r.choice([0.15, 0.4]))},
